@@ -52,6 +52,18 @@ func main() {
 		os.Exit(cmdReplay(os.Args[2:]))
 	case "selftest":
 		os.Exit(cmdSelftest(os.Args[2:]))
+	case "names":
+		l, err := loadRepo(repoRoot)
+		if err != nil {
+			fmt.Println(err)
+			os.Exit(2)
+		}
+		x, err := newExec(l)
+		if err != nil {
+			fmt.Println(err)
+			os.Exit(2)
+		}
+		cmdNames(l, x)
 	case "funcs":
 		l, err := loadRepo(repoRoot)
 		if err != nil {
